@@ -365,7 +365,8 @@ func historySide(r *mon.Run, specs []*sealedStanza) {
 			shapes = append(shapes, []string{"G", a, b}, []string{a, "G", b}, []string{a, b, "G"})
 		}
 	}
-	shapes = append(shapes, []string{"G", "G"}, []string{"G", "G", "G"}, []string{"X", "G", "G"}, []string{"U", "U", "U", "G"}, []string{"G", "X", "U", "Ss"})
+	shapes = append(shapes, []string{"G", "U0"}, []string{"U0", "G"}, []string{"U0", "G", "U0"}, []string{"Ea", "G"}, []string{"G", "Ea", "U0"},
+		[]string{"G", "G"}, []string{"G", "G", "G"}, []string{"X", "G", "G"}, []string{"U", "U", "U", "G"}, []string{"G", "X", "U", "Ss"})
 	for _, w := range []int{4, 10} {
 		g := genuine("c", w)
 		for _, shape := range shapes {
@@ -391,6 +392,10 @@ func historySide(r *mon.Run, specs []*sealedStanza) {
 					st = append(st, s)
 				case "U":
 					st = append(st, refage.Stanza{Type: "unknown-1", Args: []string{"a", "bb"}, Body: mon.DetBytes(tag+"-u", 32)})
+				case "U0":
+					st = append(st, refage.Stanza{Type: "grease-verif"})
+				case "Ea":
+					st = append(st, refage.Stanza{Type: "empty-args", Args: []string{"a", "bb"}})
 				}
 			}
 			file := refage.BuildFile(g.fk, st, mon.DetBytes("c10-hist-c-nonce-"+label, 16), g.pt)
